@@ -78,10 +78,9 @@ def handle (ts : List String) : String :=
     | "svp" => showL (allocSvp (g 0) (g 1) (wPrep be))
     | "vmp" =>
       let m := allocVmp (g 0) (g 1) (g 2) (g 3) (g 4) (wPrep be)
-      let ends := (List.range m.colsIn).flatMap (fun i => (List.range m.size).map (fun j =>
-        match vmpAtRange m i j with
-        | .ok (_, b) => b
-        | _ => 0))
+      let outs := (List.range m.colsIn).flatMap (fun i => (List.range m.size).map (fun j => vmpAtRange m i j))
+      if outs.any (fun o => match o with | .ok _ => false | _ => true) then "panic:assert" else
+      let ends := outs.map (fun o => match o with | .ok (_, b) => b | _ => 0)
       s!"{m.w},{m.len},{ends.foldl Nat.max (vmpRawRange m).2}"
     | _ => "bad-op"
   | "consume" :: rest =>
